@@ -52,7 +52,7 @@ def run(ctx):
     ctx.rule("R4.confinement-witnesses", "Ref<T>: !Send + !Sync; unsafe Send/Sync impls are in the justified table", floor=4)
     ctx.rule("R5.create-outside-insert-under-lock", "current_thread_instance: conversion Family->T not under a guard; entry() match under the write guard; occupied arm returns the registered instance", floor=4)
     ctx.rule("R7.exposed-family-comes-from-registry", "what a thread caches/exposes for a static is read back from the global registry (the arbiter); the family created for a first access only flows into the vacant registry entry, never into a return value", floor=2)
-    ctx.rule("R8.reference-drop-always-decides", "the Drop of a per-thread reference reaches its reference-count test on every path (no early exit, e.g. while panicking): the instance goes exactly when the last aligned reference goes", floor=2)
+    ctx.rule("R8.reference-drop-always-decides", "the Drop of a per-thread reference reaches its reference-count test on every path (no early exit, e.g. while panicking) and the cleanup always takes the blocking write lock and removes the entry: the instance goes exactly when the last aligned reference goes", floor=4)
     ctx.rule("R6.first-registration-wins", "global registry writes use entry()/Vacant::insert only; no HashMap::insert that could replace a registered family", floor=1)
 
     # ---------------- R1
@@ -156,6 +156,29 @@ def run(ctx):
             ctx.ob("R3.count-test-under-lock", short(adt), under, d.loc(sc[0][1]["span"]) if sc else d.loc(),
                    f"strong_count tests in Drop: {len(sc)}; all made with the map's write guard live: {under}" +
                    ("" if under else " - two references dropped concurrently can both see a count > 2 and leave the entry behind, or race with a new acquire"))
+
+    # ---------------- R8b: the cleanup itself always takes the map's write lock (blocking) and removes the entry
+    for mod in ("instance_per_thread", "instance_per_thread_sync"):
+        cb = prog.one(f"{mod}::FamilyStateReference::clear_current_thread_instance")
+        if cb is None:
+            ctx.missing("R8.reference-drop-always-decides", f"{mod}::clear_current_thread_instance")
+            continue
+        ctx.fn(cb)
+        locks = [(bb, t) for bb, t in cb.calls() if t["callee"].get("method") in ("write", "try_write", "read", "try_read", "lock", "try_lock") and
+                 callee_key(t["callee"]).rsplit("::", 1)[0].endswith(("RwLock", "Mutex"))]
+        rem = [(bb, t) for bb, t in cb.calls() if t["callee"].get("method") == "remove" and "HashMap" in callee_key(t["callee"]) and not cb.blocks[bb].cleanup]
+        pc = path_count(cb, [bb for bb, _ in rem])
+        names = sorted({t["callee"].get("method") for _bb, t in locks})
+        # once the lock has been asked for, every way out passes the removal (the function may have been folded into Drop,
+        # whose own count test legitimately returns before the lock)
+        after_lock = True
+        for lbb, _t in locks:
+            okp, _off = cb.must_pass(cb.term_succ(lbb, False), [bb for bb, _ in rem], cb.exits(("return",)))
+            after_lock = after_lock and okp
+        ok = names == ["write"] and bool(rem) and after_lock
+        ctx.ob("R8.reference-drop-always-decides", f"{mod}.cleanup-removes-entry", ok, cb.loc(),
+               f"lock methods used: {names} (need the blocking `write`); HashMap::remove per normal path (min,max)={pc}" +
+               ("" if ok else " - a cleanup that gives up when the map is busy leaves the instance alive after its last reference is gone"))
 
     # ---------------- R5
     for mod in ("instance_per_thread", "instance_per_thread_sync"):
